@@ -25,7 +25,7 @@ func init() {
 		Doc: "capability detection uses the methods' results: IsBool = BoolValued && IsBoolFlag(); DefaultValue = \"\" iff DefaultValued && IsDefault(), else String()", Run: val5})
 	register(&Rule{ID: "VAL-6", Props: []string{"C06", "C02"}, Floor: 7,
 		Doc: "each constructor NewX(into, v) stores v to *into and returns into converted", Run: val6})
-	register(&Rule{ID: "VAL-7", Props: []string{"C06", "C02", "C20", "C13"}, Floor: 6,
+	register(&Rule{ID: "VAL-7", Props: []string{"C06", "C02", "C20", "C13", "C17"}, Floor: 6,
 		Doc: "multi-valued built-ins: Clear stores nil, Set appends at the end", Run: val7})
 }
 
@@ -613,8 +613,15 @@ func val3(c *Ctx) {
 					}
 				}
 			}
-			c.Check(good, key+":getenv-arg", g.Pos(), "each variable name is an element, in order, of strings.Fields(<the list parameter>)",
-				"os.Getenv is not called on the in-order elements of strings.Fields(list parameter)")
+			whyG := "os.Getenv is not called on the in-order elements of strings.Fields(list parameter)"
+			if good {
+				if _, h, isR := rangeElemHeader(g.Call.Args[0]); isR && h != nil {
+					if _, entry, _ := loopBody(h); entry != nil && entry != g.Block() && ir.Reach(entry, map[*ssa.BasicBlock]bool{g.Block(): true}, nil)[h] {
+						good, whyG = false, "a variable of the list can be passed over without being read"
+					}
+				}
+			}
+			c.Check(good, key+":getenv-arg", g.Pos(), "each variable name is an element, in order, of strings.Fields(<the list parameter>)", whyG)
 			// (b) empty skipped: every Set / helper call using g is dominated by non-emptiness of g
 			var lenTests []ssa.Value // boolean values meaning "g is empty"
 			for _, u := range *g.Referrers() {
@@ -704,7 +711,30 @@ func val3(c *Ctx) {
 							bad = true
 						}
 					}
-					c.Check(!bad, key+":return-false", r.Pos(), "false is returned only when no variable applied", "false returned although a variable applied")
+					whyF := "false returned although a variable applied"
+					if !bad && ok {
+						// and only once every variable of the list was looked at (or the list is empty)
+						if _, h, isR := rangeElemHeader(g.Call.Args[0]); isR && h != nil {
+							_, _, exit := loopBody(h)
+							cut := map[ir.Edge]bool{{From: h, To: exit}: true}
+							for _, prm := range fn.Params {
+								if isStringType(prm.Type()) {
+									for _, e := range lenOnlyZeroEdges(fn, prm) {
+										cut[e] = true
+									}
+								}
+							}
+							for _, e := range lenOnlyZeroEdgesLike(fn, sl) {
+								cut[e] = true
+							}
+							for _, w := range ir.ReturnWays(fn) {
+								if w.Ret == r.Ret && w.ReachableUnder(ir.Reach(fn.Blocks[0], nil, cut), cut) {
+									bad, whyF = true, "false can be returned before every variable of the list was tried"
+								}
+							}
+						}
+					}
+					c.Check(!bad, key+":return-false", r.Pos(), "false is returned only when no variable applied", whyF)
 					continue
 				}
 				good := false
@@ -1185,7 +1215,59 @@ func val7(c *Ctx) {
 					}
 				}
 			})
-			c.Check(ok, Q(fn)+":append", fn.Pos(), "appends one element at the end of the current content", "Set does not append to the current content")
+			whyS := "Set does not append to the current content"
+			if ok {
+				// nil is returned only after the append (a value accepted without being kept is lost)
+				for _, r := range ir.ReturnPoints(fn) {
+					if len(r.Results) != 1 || !ir.IsNilConst(r.Results[0]) {
+						continue
+					}
+					if !ir.MustPassBefore(r.Anchor(), func(in2 ssa.Instruction) bool {
+						st, isSt := in2.(*ssa.Store)
+						return isSt && st.Addr == ssa.Value(fn.Params[0])
+					}) {
+						ok, whyS = false, "Set can report success without having appended the value"
+					}
+				}
+			}
+			c.Check(ok, Q(fn)+":append", fn.Pos(), "appends one element at the end of the current content", whyS)
+		case "String":
+			// the text shows every element: the loop over the content extends the text on every iteration
+			c.Mark(fn)
+			okS, whyS, seenLoop := true, "", false
+			ir.Instrs(fn, func(in ssa.Instruction) {
+				v, isV := in.(ssa.Value)
+				if !isV {
+					return
+				}
+				sl, h, isR := rangeElemHeader(v)
+				if !isR || h == nil {
+					return
+				}
+				if ld, isLd := stripConv(sl).(*ssa.UnOp); !isLd || ld.Op != token.MUL || ld.X != ssa.Value(fn.Params[0]) {
+					return
+				}
+				for _, hin := range h.Instrs {
+					acc, isPhi := hin.(*ssa.Phi)
+					if !isPhi || acc.Comment == "rangeindex" || !isStringType(acc.Type()) {
+						continue
+					}
+					seenLoop = true
+					for i, e := range acc.Edges {
+						if h.Dominates(h.Preds[i]) && (!mentionsValue(e, acc, 0) || !mentionsValue(e, v, 0)) {
+							okS, whyS = false, "an element of the content can be left out of the text"
+						}
+					}
+					if okB, w := noBreak(h); !okB {
+						okS, whyS = false, w
+					}
+				}
+			})
+			if seenLoop {
+				// decided only for the accumulate-in-a-range-loop shape; other shapes (a builder, a join) are
+				// not claimed
+				c.Check(okS, Q(fn)+":every-element", fn.Pos(), "every element of the content is part of the text", whyS)
+			}
 		}
 	}
 }
